@@ -217,6 +217,37 @@ static int replay_reader()
 	return reads == 1 ? 0 : 4;
 }
 
+// [C06.writer]: the congestion window has shrunk to one segment (as after tail drops); a writer blocked on the window
+// must be woken by the acknowledgement that empties it
+static int replay_writer()
+{
+	default_config cfg;
+	simulation sim(cfg);
+	asio::io_context srv(sim, asio::ip::make_address_v4("50.0.0.1")), cli(sim, asio::ip::make_address_v4("50.0.0.2"));
+	asio::ip::tcp::acceptor acc(srv);
+	acc.open(asio::ip::tcp::v4());
+	acc.bind(asio::ip::tcp::endpoint(asio::ip::address_v4::any(), 4000));
+	acc.listen(10);
+	asio::ip::tcp::socket s1(srv), c(cli);
+	std::vector<char> data(3 * 1475, 'x'), rbuf(100000);
+	std::size_t sent = 0, recvd = 0;
+	std::function<void()> rd = [&]() { s1.async_read_some(asio::buffer(rbuf), [&](boost::system::error_code const& e, std::size_t n) { if (e) return; recvd += n; rd(); }); };
+	std::function<void()> wr = [&]() { if (sent >= data.size()) return; c.async_write_some(asio::buffer(data.data() + sent, data.size() - sent), [&](boost::system::error_code const& e, std::size_t n) { if (e) return; sent += n; wr(); }); };
+	acc.async_accept(s1, [&](boost::system::error_code const& e) { if (!e) rd(); });
+	c.async_connect(asio::ip::tcp::endpoint(asio::ip::make_address_v4("50.0.0.1"), 4000), [&](boost::system::error_code const& e) {
+		if (e) return;
+		c.m_cwnd = c.m_mss;          // the state packet_dropped() leaves after repeated drops (window floor: one segment)
+		wr();
+	});
+	sim.run();
+	if (sent < data.size() && c.m_send_handler && c.m_bytes_in_flight == 0)
+	{
+		std::printf("[C06.writer] quiescent with a write pending (%zu of %zu bytes accepted), nothing in flight (window %d, segment %d): the acknowledgement that emptied the window did not wake the writer\n", sent, data.size(), c.m_cwnd, c.m_mss);
+		return 3;
+	}
+	return 0;
+}
+
 int main(int argc, char** argv)
 {
 	if (argc < 3) return 4;
@@ -226,5 +257,6 @@ int main(int argc, char** argv)
 	if (label.find("C05.fresh") != std::string::npos) return replay_fresh();
 	if (label.find("C20.mss") != std::string::npos) return replay_mss();
 	if (label.find("C06.reader") != std::string::npos) return replay_reader();
+	if (label.find("C06.writer") != std::string::npos) return replay_writer();
 	return 4;
 }
